@@ -61,6 +61,7 @@ BRANCH_CORPUS = [
     # `is_not = is_not or search…("NOT")` short-circuits (parser.py:922): after a NOT in front of IS a second NOT is not consumed (the model had it wrong; found
     # by the derivation proof of C02)
     ("MYSQL", "SELECT a NOT IS NOT b FROM t"), ("MYSQL", "SELECT a FROM t WHERE a NOT IS NULL AND b IS NOT NULL AND c NOT IS NOT NULL"),
+    ("HIVE", "CREATE TABLE IF NOT EXISTS t AS SELECT 1"), ("MYSQL", "CREATE TABLE s.t AS WITH w AS (SELECT 1) SELECT * FROM w"),
     ("HIVE", "ANALYZE TABLE t PARTITION (dt, hr) COMPUTE STATISTICS"),
     ("HIVE", "ANALYZE TABLE t PARTITION (dt='1') COMPUTE STATISTICS NOSCAN"),
 ]
